@@ -1,6 +1,6 @@
 ------------------------------ MODULE TcpConnGen ------------------------------
 (* Behaviour generation (spec -> code).  A behaviour ends with one Finish step that prints the action history as
-   JSON; harness/cmd/tcpconn performs the environment actions (Connect, CSend, CFin, CRst, TSend, TFin, TRst, TClose, Tick,
+   JSON; harness/cmd/tcpconn performs the environment actions (Connect, CSend, CFin, CRst, CPause, CResume, TSend, TFin, TRst, TClose, TPause, TResume, Tick,
    CloseListener) on real sockets in this order and, before each of them, waits for the observable actions that
    precede it (Open, MAuth, MProbe, MClosed, Dial, TRecv, TSawFin, CRecv, CSawFin, CClose, ServeReturn). *)
 EXTENDS TcpConn, Json
@@ -31,6 +31,14 @@ BadOnlyAfterTargetFin == \A c \in Conns : SendsBad(c) => Has(ob[c].clog, 0)
 SecondAfterFirstDial == (2 \in Conns /\ 1 \in Conns) => ((st'[2].pc # "idle" /\ st[2].pc = "idle") => ob[1].dials > 0)
 \* ... and the listener is closed only when every connection has been served
 Containment == SecondAfterFirstDial /\ ((lst' = "closed" /\ lst = "open") => \A c \in Conns : st[c].pc = "done")
+\* a receiver that stopped reading comes back only after more than the handshake timeout has passed (a write that blocks
+\* longer than any timeout the handler knows), and the peers do not end their streams while the other side is away
+ResumeLate == \A c \in Conns : /\ (st[c].tpz > 0 /\ st'[c].tpz = 0) => now >= st[c].tpz + Timeout
+                               /\ (st[c].cpz > 0 /\ st'[c].cpz = 0) => now >= st[c].cpz + Timeout
+\* pauses happen before the data they hold up is sent
+PauseFirst == \A c \in Conns : /\ (st'[c].tpz > 0 /\ st[c].tpz = 0) => ONData(ob[c]) = 0
+                               /\ (st'[c].cpz > 0 /\ st[c].cpz = 0) => ob[c].tsent = 0
+PausedReceiver == ResumeLate /\ PauseFirst
 \* the target speaks only after the handshake deadline of the connection has long passed (the relay outlives it)
 TargetSendsLate == \A c \in Conns : ob'[c].tsent > ob[c].tsent => now > ob[c].acceptAt + Timeout
 \* and the client does not end the connection before the target has spoken
